@@ -599,6 +599,14 @@ func runEth(t *testing.T, inp *Input, tr int, beh []json.RawMessage, out func(in
 			t.Fatalf("unknown act %q", ev.Act)
 		}
 	}
+	// C16 for this client type: the chain that holds the client is exported and re-created from the exported genesis;
+	// the classes of store keys that differ are reported with the Export step (added by the harness to every behaviour)
+	diff, info := nt.ExportImport("A")
+	if diff == nil {
+		diff = []string{}
+	}
+	info["diff"] = diff
+	r.emit(json.RawMessage(`{"act":"Export"}`), 0, "", info)
 }
 
 func init() { Families["eth"] = runEth }
